@@ -35,6 +35,19 @@ Definition fquant1 (c:fctx) (h:list Z) (pb xb:Z) : option (Z * Z) :=
     let state := Z.shiftr (int_of_f32 (fadd (fmul err (frecip c)) (f32_of_Z 1))) 1 in
     let '(q, r) := if fge x p then (fradius c + state, fadd p (fmul (f32_of_Z state) (finterval c)))
                    else (fradius c - state, fsub p (fmul (f32_of_Z state) (finterval c))) in
+    (* if(fabs(curData-pred)>realPrecision || type[i]==0) -> unpredictable *)
+    if f_ok c xb (Fb r) && negb (q =? 0) then Some (q, Fb r) else None
+  else None.
+
+(* before the repair: code 0 (the unpredictable marker) could be emitted for a predicted element *)
+Definition fquant1_old (c:fctx) (h:list Z) (pb xb:Z) : option (Z * Z) :=
+  if (length h <? 2)%nat then None else
+  let x := F xb in let p := F pb in
+  let err := fabs32 (fsub x p) in
+  if flt err (fcheck c) then
+    let state := Z.shiftr (int_of_f32 (fadd (fmul err (frecip c)) (f32_of_Z 1))) 1 in
+    let '(q, r) := if fge x p then (fradius c + state, fadd p (fmul (f32_of_Z state) (finterval c)))
+                   else (fradius c - state, fsub p (fmul (f32_of_Z state) (finterval c))) in
     if f_ok c xb (Fb r) then Some (q, Fb r) else None
   else None.
 
@@ -70,6 +83,7 @@ Definition fenc1 := enc Z fctx fpred1 fquant1 fexact.
 Definition fdec1 := dec Z fctx fpred1 fdequant1.
 
 Definition fchecks1 := run_checks Z fctx fpred1 fquant1 fdequant1 fexact Z.eqb f_ok.
+Definition fchecks1_old := run_checks Z fctx fpred1 fquant1_old fdequant1 fexact Z.eqb f_ok.
 
 (* ---------------- double ---------------- *)
 Record dctx := { de : f64; dcheck : f64; dinterval : f64; drecip : f64; dmedian : f64; dreq : Z; dradius : Z }.
@@ -84,8 +98,21 @@ Definition dexact (c:dctx) (xb:Z) : Z :=
 
 Definition d_ok (c:dctx) (xb rb:Z) : bool := negb (dgt (dabs (dsub (D xb) (D rb))) (de c)).
 
-(* SZ_compress_double_1D_MDQ: no re-check after quantisation *)
+(* SZ_compress_double_1D_MDQ: if(fabs(curData-pred)<=realPrecision && type[i]!=0) the code stands, otherwise the element is stored exactly *)
+Definition d_within (c:dctx) (xb:Z) (r:f64) : bool := dle (dabs (dsub (D xb) r)) (de c).
 Definition dquant1 (c:dctx) (h:list Z) (pb xb:Z) : option (Z * Z) :=
+  if (length h <? 2)%nat then None else
+  let x := D xb in let p := D pb in
+  let err := dabs (dsub x p) in
+  if dlt err (dcheck c) then
+    let state := int_of_f64 (dmul (dadd (dmul err (drecip c)) (f64_of_Z 1)) (D 0x3FE0000000000000)) in
+    let '(q, r) := if dge x p then (dradius c + state, dadd p (dmul (f64_of_Z state) (dinterval c)))
+                   else (dradius c - state, dsub p (dmul (f64_of_Z state) (dinterval c))) in
+    if d_within c xb r && negb (q =? 0) then Some (q, Db r) else None
+  else None.
+
+(* before the repair: no re-check after quantisation *)
+Definition dquant1_old (c:dctx) (h:list Z) (pb xb:Z) : option (Z * Z) :=
   if (length h <? 2)%nat then None else
   let x := D xb in let p := D pb in
   let err := dabs (dsub x p) in
@@ -126,6 +153,7 @@ Definition denc1 := enc Z dctx dpred1 dquant1 dexact.
 Definition ddec1 := dec Z dctx dpred1 ddequant1.
 
 Definition dchecks1 := run_checks Z dctx dpred1 dquant1 ddequant1 dexact Z.eqb d_ok.
+Definition dchecks1_old := run_checks Z dctx dpred1 dquant1_old ddequant1 dexact Z.eqb d_ok.
 
 (* whole 1-D runs for the correspondence check: reconstruction, number of exactly stored elements, checks *)
 Definition frun1 (e64b intervals:Z) (data:list Z) :=
